@@ -60,6 +60,63 @@ def run_call(c: dict) -> str:
         return "fail:" + type(e).__name__
 
 
+def run_call_nested(c: dict) -> str:
+    """the same call, but the key is a callable that - before handing out the key - performs another joserfc operation with
+    a *different* allow-list (a re-entrant caller); the outer call must still honour exactly its own list"""
+    from joserfc import jwe, jws
+    from joserfc.errors import UnsupportedAlgorithmError
+    side, op, ser, via, allow = c["side"], c["op"], c["ser"], c["via"], c["allow"]
+    try:
+        if side == "jws":
+            alg = c["alg"]
+            jwk = J.jws_key_for(alg)
+            inner = J.jkey(K.get("oct512"))
+
+            def keyfn(obj):
+                jws.serialize_compact({"alg": "HS512"}, b"inner", inner, algorithms=["HS512"])
+                return J.jkey(jwk if op == "produce" else J.pub(jwk))
+            hdr, payload = J.jws_header(alg, ser), J.jws_payload(ser)
+            kw = J.jws_allow_args(allow, via, rfc7797=ser.startswith("7797"))
+            if op == "produce":
+                return "ok" if J.jws_produce(ser, hdr, payload, keyfn, **kw) else "fail:empty"
+            tok = J.jws_forge(ser, ({"typ": "JWT", **hdr} if ser == "jwt" else hdr), payload, jwk)
+            return "ok" if J.jws_consume(ser, tok, keyfn, **kw) == payload else "fail:content"
+        alg, enc, zp = c["alg"], c["enc"], c["zip"]
+        jwk = J.jwe_key_for(alg, enc)
+        inner = J.jkey(K.get("oct192"))
+
+        def keyfn(obj):
+            jwe.encrypt_compact({"alg": "A192KW", "enc": "A192GCM"}, b"inner", inner, algorithms=["A192KW", "A192GCM"])
+            return J.jkey(J.pub(jwk) if op == "produce" else jwk)
+        hdr, pt = J.jwe_header(alg, enc, zp), J.jwe_plain(ser)
+        kw = J.jwe_allow_args(allow, via, jwt=(ser == "jwt"))
+        if op == "produce":
+            if ser in ("flattened", "general"):
+                cls = jwe.FlattenedJSONEncryption if ser == "flattened" else jwe.GeneralJSONEncryption
+                obj = cls(hdr, pt); obj.add_recipient(None)
+                return "ok" if jwe.encrypt_json(obj, keyfn, **kw) else "fail:empty"
+            return "ok" if J.jwe_produce(ser, hdr, pt, keyfn, **kw) else "fail:empty"
+        tok = J.jwe_forge(ser, ({"typ": "JWT", **hdr} if ser == "jwt" else hdr), pt, jwk)
+        return "ok" if J.jwe_consume(ser, tok, keyfn, **kw) == pt else "fail:content"
+    except UnsupportedAlgorithmError:
+        return "unsupported"
+    except BaseException as e:  # noqa
+        if isinstance(e, (KeyboardInterrupt, SystemExit)):
+            raise
+        return "fail:" + type(e).__name__
+
+
+def _nested_group(hists):
+    out = []
+    for h in hists:
+        c = h[0]["c"]
+        if skip(c) or (isinstance(c["alg"], str) and c["alg"].startswith("ECDH-1PU")):
+            out.append("skip")
+        else:
+            out.append(run_call_nested(c))
+    return out
+
+
 def skip(c: dict) -> bool:
     # jwt.encode/decode have no sender_key parameter: ECDH-1PU cannot be used through that API
     return c["side"] == "jwe" and c["ser"] == "jwt" and isinstance(c["alg"], str) and c["alg"].startswith("ECDH-1PU")
@@ -200,6 +257,17 @@ def run(ctx: Ctx) -> None:
         for (reg, hs), obs in zip(tasks, res):
             for h, o in zip(hs, obs):
                 judge(ctx, h, o)
+        # re-entrant callers: a seeded sample of the single calls again, with a callable key that makes a nested call
+        nest = [h for h in singles if not h[0]["reg"] and h[0]["c"]["allow"]["kind"] == "list" and rnd.random() < (1.0 if thorough else 0.12)]
+        ntasks = [nest[i:i + 200] for i in range(0, len(nest), 200)]
+        for hs, obs in zip(ntasks, pool.map(_nested_group, ntasks)):
+            for h, o in zip(hs, obs):
+                if o == "skip":
+                    continue
+                ctx.evaluations += 1
+                if o.split(":")[0] not in h[0]["allowed"]:
+                    ctx.violation("nested-call " + sig(h[0]["c"], o, 1, 1), {"history": h, "observed": o, "how": "key given as a callable that makes another joserfc call with a different allow-list"})
+        ctx.notes["nested_call_cases"] = len(nest)
         hists = hists2 + hists4
         obs_h = pool.map(run_history, hists, chunksize=8)       # a fresh process per history
         for h, o in zip(hists, obs_h):
